@@ -109,8 +109,13 @@ def run_row(case):
     verdict = spside.deliver(sp, doc, binding=world.REDIRECT if redirect else None, **kw)
     want = expected_accept(wrs, was, wors, 'R' in shape, 'A' in shape, corrupt is None)
     advice_signed = (ident.get('enc_advice') and not row['enc']) or (ident.get('plain_advice') and not ident.get('enc_advice'))
-    if idp_keys in ('encryption-only', 'none') and (shape != 'none' or advice_signed):
-        want = False        # a signature that is present (the advice assertion's own one included) cannot verify
+    if idp_keys in ('encryption-only', 'none') and shape != 'none':
+        want = False        # a signature that is present cannot verify
+    elif idp_keys in ('encryption-only', 'none') and advice_signed:
+        # the only signature in the message sits on an assertion inside the Advice, and it cannot be verified (no key): the table of the statement speaks
+        # of the response's and the assertion's signatures; whether an unverifiable advice signature sinks the message is not judged (the library refuses
+        # when the advice was encrypted and accepts when it is in clear)
+        return 'unjudged|advice-signature-unverifiable', False
     got = verdict[0] == 'accept'
     if got and not want:
         raise Violation('accepted-against-table', 'options wrs/was/wors=%r, %s, signed=%s, corrupted=%r: accepted, table says reject'
